@@ -70,6 +70,184 @@ def parse_key_pattern(src):
     return [lead, s, dollar]
 
 
+def expand_alternation(src):
+    """A regular expression of the fragment  alt ('|' alt)*,  alt = `.*`? word* [ '(' ['?:'] word* ('|' word*)* ')' word* ] `$`?
+    -> the list of simple sources (`.*`? literal `$`?) it is the union of.  `a|b$` is [a, b$] - the `$` binds to
+    the last alternative only - while `(?:a|b)$` is [a$, b$].  Anything else is outside the fragment."""
+    alts, depth, cur = [], 0, ""
+    for ch in src:
+        if ch in "[]\\{}+?^" and not (ch == "?" and cur.endswith("(")):
+            raise ValueError("pattern outside the modelled fragment: %r" % src)
+        if ch == "(":
+            depth += 1
+        elif ch == ")":
+            depth -= 1
+            if depth < 0:
+                raise ValueError("unbalanced: %r" % src)
+        if ch == "|" and depth == 0:
+            alts.append(cur)
+            cur = ""
+        else:
+            cur += ch
+    if depth:
+        raise ValueError("unbalanced: %r" % src)
+    alts.append(cur)
+    out = []
+    for a in alts:
+        lead = a.startswith(".*")
+        body = a[2:] if lead else a
+        dollar = body.endswith("$")
+        if dollar:
+            body = body[:-1]
+        m = re.fullmatch(r"(\w*)(?:\((?:\?:)?(\w*(?:\|\w*)*)\)(\w*))?", body)
+        if not m:
+            raise ValueError("pattern outside the modelled fragment: %r" % a)
+        if m.group(2) is None:
+            lits = [m.group(1)]
+        else:
+            lits = [m.group(1) + x + m.group(3) for x in m.group(2).split("|")]
+        out += [(".*" if lead else "") + x + ("$" if dollar else "") for x in lits]
+    return out
+
+
+class Static:
+    """Evaluates, without running anything, the module-level expressions a pattern table is built from: text and
+    list literals, names bound once at module level, `+`, `sep.join(...)`, f-strings, `re.escape`, list / generator
+    comprehensions over such lists.  Anything else raises KeyError (-> the item degrades to its pinned value)."""
+
+    def __init__(self, src):
+        self.src = src
+
+    def binding(self, name):
+        found = []
+        for node in (self.src.tree.body if self.src.tree is not None else []):
+            if isinstance(node, ast.Assign) and any(isinstance(t, ast.Name) and t.id == name for t in node.targets):
+                found.append(node.value)
+            elif isinstance(node, ast.AnnAssign) and isinstance(node.target, ast.Name) and node.target.id == name and node.value is not None:
+                found.append(node.value)
+            elif isinstance(node, (ast.AugAssign, ast.For, ast.If, ast.With, ast.Try, ast.While)):
+                for x in ast.walk(node):
+                    if isinstance(x, ast.Name) and x.id == name and isinstance(x.ctx, ast.Store):
+                        raise KeyError("%s is assigned in a compound statement" % name)
+        if len(found) != 1:
+            raise KeyError("%s: %d module-level bindings" % (name, len(found)))
+        return found[0]
+
+    def ev(self, n, env=None, depth=0):
+        env = env or {}
+        if depth > 12:
+            raise KeyError("too deep")
+        go = lambda x, e=env: self.ev(x, e, depth + 1)
+        if isinstance(n, ast.Constant) and isinstance(n.value, (str, int, bool, type(None))):
+            return n.value
+        if isinstance(n, (ast.List, ast.Tuple)):
+            return [go(x) for x in n.elts]
+        if isinstance(n, ast.Name):
+            if n.id in env:
+                return env[n.id]
+            return go(self.binding(n.id), {})
+        if isinstance(n, ast.BinOp) and isinstance(n.op, ast.Add):
+            a, b = go(n.left), go(n.right)
+            if (isinstance(a, str) and isinstance(b, str)) or (isinstance(a, list) and isinstance(b, list)):
+                return a + b
+            raise KeyError("+ of %s and %s" % (type(a).__name__, type(b).__name__))
+        if isinstance(n, ast.JoinedStr):
+            out = ""
+            for v in n.values:
+                if isinstance(v, ast.Constant) and isinstance(v.value, str):
+                    out += v.value
+                elif isinstance(v, ast.FormattedValue) and v.conversion == -1 and v.format_spec is None:
+                    x = go(v.value)
+                    if not isinstance(x, str):
+                        raise KeyError("f-string field")
+                    out += x
+                else:
+                    raise KeyError("f-string field")
+            return out
+        if isinstance(n, ast.Call) and not n.keywords and isinstance(n.func, ast.Attribute) and n.func.attr == "join" and len(n.args) == 1:
+            sep, xs = go(n.func.value), go(n.args[0])
+            if isinstance(sep, str) and isinstance(xs, list) and all(isinstance(x, str) for x in xs):
+                return sep.join(xs)
+            raise KeyError("join")
+        if isinstance(n, ast.Call) and not n.keywords and ast.unparse(n.func) == "re.escape" and len(n.args) == 1:
+            x = go(n.args[0])
+            if isinstance(x, str):
+                return re.escape(x)
+            raise KeyError("re.escape")
+        if isinstance(n, ast.Call) and not n.keywords and ast.unparse(n.func) in ("list", "tuple") and len(n.args) == 1:
+            x = go(n.args[0])
+            if isinstance(x, list):
+                return list(x)
+            raise KeyError("list()")
+        if isinstance(n, (ast.ListComp, ast.GeneratorExp)) and len(n.generators) == 1 and not n.generators[0].ifs \
+                and isinstance(n.generators[0].target, ast.Name) and not n.generators[0].is_async:
+            xs = go(n.generators[0].iter)
+            if not isinstance(xs, list):
+                raise KeyError("comprehension over %s" % type(xs).__name__)
+            return [self.ev(n.elt, dict(env, **{n.generators[0].target.id: x}), depth + 1) for x in xs]
+        raise KeyError("not static: %s" % ast.unparse(n)[:50])
+
+
+def key_test(lf):
+    """How clean_record tests a key: -> (name of the module-level table / compiled expression, method).
+    `any(R.search(key) for R in NAME)` (any loop variable) or `NAME.search(key)`; exactly one test."""
+    fn = lf.func("clean_record", "LogFormatter")
+    found = []
+    for n in ast.walk(fn):
+        if isinstance(n, ast.Call) and isinstance(n.func, ast.Attribute) and n.func.attr in ("match", "search", "fullmatch") \
+                and isinstance(n.func.value, ast.Name) and len(n.args) == 1 and not n.keywords:
+            found.append((n.func.value.id, n.func.attr, n))
+    if len(found) != 1:
+        raise KeyError("key test: %d candidates" % len(found))
+    var, method, call = found[0]
+    for n in ast.walk(fn):
+        if isinstance(n, (ast.GeneratorExp, ast.ListComp)) and any(x is call for x in ast.walk(n.elt)):
+            g = n.generators
+            if len(g) == 1 and isinstance(g[0].target, ast.Name) and g[0].target.id == var and isinstance(g[0].iter, ast.Name) and not g[0].ifs:
+                return g[0].iter.id, method
+            raise KeyError("key test: comprehension shape")
+    return var, method
+
+
+def compiled_key_patterns(lf):
+    """The regular expressions the key test runs, as *compiled*: follows the name the test uses to its module-level
+    definition and evaluates the `re.compile(...)` argument(s) statically.  -> (simple sources, IGNORECASE?)."""
+    name, _ = key_test(lf)
+    st = Static(lf)
+    node = st.binding(name)
+
+    def flags_of(call):
+        names = sorted(x.attr for a in call.args[1:] + [k.value for k in call.keywords] for x in ast.walk(a) if isinstance(x, ast.Attribute))
+        extra = [a for a in call.args[1:] + [k.value for k in call.keywords] if not isinstance(a, (ast.Attribute, ast.BinOp))]
+        other = [x for x in names if x not in ("IGNORECASE", "I", "re")]
+        if other or extra:
+            raise KeyError("unmodelled flags %s" % (other or "expression"))
+        return bool(names)
+
+    def is_compile(c):
+        return isinstance(c, ast.Call) and ast.unparse(c.func) == "re.compile" and c.args
+
+    if isinstance(node, (ast.ListComp, ast.GeneratorExp)) and is_compile(node.elt):
+        g = node.generators
+        if len(g) != 1 or g[0].ifs or not isinstance(g[0].target, ast.Name):
+            raise KeyError("comprehension shape")
+        xs = st.ev(g[0].iter)
+        srcs = [st.ev(node.elt.args[0], {g[0].target.id: x}) for x in xs]
+        icase = [flags_of(node.elt)]
+    elif is_compile(node):
+        srcs, icase = [st.ev(node.args[0])], [flags_of(node)]
+    elif isinstance(node, (ast.List, ast.Tuple)) and node.elts and all(is_compile(c) for c in node.elts):
+        srcs, icase = [st.ev(c.args[0]) for c in node.elts], [flags_of(c) for c in node.elts]
+    else:
+        raise KeyError("%s is not built by re.compile" % name)
+    if not srcs or not all(isinstance(x, str) for x in srcs) or len(set(icase)) != 1:
+        raise KeyError("compiled sources")
+    out = []
+    for x in srcs:
+        out += expand_alternation(x)
+    return out, icase[0]
+
+
 def parse_url_pattern(src):
     m = re.fullmatch(r"(.*?)\(\.\*(\??)\)(.*)", src)
     if not m:
@@ -99,7 +277,13 @@ def generate(o):
     lf = Src("orso/logging/log_formatter.py")
     disp = Src("orso/display.py")
 
-    keys = o.item("c20.KEYS_TO_SANITIZE", lambda: [str(x) for x in lf.assign("KEYS_TO_SANITIZE")], PINNED_KEYS)
+    # what the key test really runs: the name it uses, followed to the re.compile call(s) and evaluated statically
+    # (a table rebuilt from word lists, one alternation, f-strings ... are all read; `a|b$` is [a, b$])
+    comp = o.item("c20.compiled_key_patterns", lambda: list(compiled_key_patterns(lf)), None)
+    if comp is not None:
+        keys = o.item("c20.KEYS_TO_SANITIZE", lambda: [str(x) for x in comp[0]], PINNED_KEYS)
+    else:  # the table as written (the shape round 1 read)
+        keys = o.item("c20.KEYS_TO_SANITIZE", lambda: [str(x) for x in lf.assign("KEYS_TO_SANITIZE")], PINNED_KEYS)
     pats = o.item("c20.key_patterns", lambda: [parse_key_pattern(k) for k in keys], [parse_key_pattern(k) for k in PINNED_KEYS])
 
     def flags():
@@ -115,18 +299,10 @@ def generate(o):
                 return bool(names)
         raise KeyError("COMPILED_KEYS_TO_SANITIZE")
 
-    icase = o.item("c20.ignorecase", flags, True)
+    icase = o.item("c20.ignorecase", (lambda: bool(comp[1])) if comp is not None else flags, True)
 
     def mode():
-        fn = lf.func("clean_record", "LogFormatter")
-        found = []
-        for n in ast.walk(fn):
-            if isinstance(n, ast.Call) and isinstance(n.func, ast.Attribute) and isinstance(n.func.value, ast.Name) \
-                    and n.func.value.id == "regex" and n.func.attr in ("match", "search", "fullmatch"):
-                found.append(n.func.attr)
-        if len(set(found)) != 1:
-            raise KeyError("key test method %r" % found)
-        return found[0]
+        return key_test(lf)[1]
 
     md = o.item("c20.match_mode", mode, "search")
 
